@@ -424,8 +424,25 @@ def generate(repo):
                   'return self.results_store.get(idx)'],
                  f"SearchResultMinimal.{prop}: None iff the metadata slot "
                  "is None, else the store entry", f)
-        return ("Definition x_result_meta_none_iff_slot_none : bool := true.",
-                {})
+        # SearchResult.__init__: the sequence id is taken from the linked
+        # sequence definition BEFORE the early return of results that do not
+        # store their contents (a marker result still belongs to its section)
+        init = find_def(rt, 'SearchResult.__init__')
+        top = [U(n.test) if isinstance(n, ast.If) else None
+               for n in init.body]
+        need('search_def.sequence_def' in top
+             and 'not search_def.store_result_contents' in top
+             and top.index('search_def.sequence_def')
+             < top.index('not search_def.store_result_contents'),
+             "SearchResult.__init__: sequence_id is not set before the "
+             "store_result_contents early return", init)
+        seq_if = init.body[top.index('search_def.sequence_def')]
+        need(U(seq_if.body[-1]) ==
+             'self.sequence_id = search_def.sequence_def.id',
+             "sequence_id = id of the linked sequence definition", seq_if)
+        return ("Definition x_result_meta_none_iff_slot_none : bool := true."
+                "\nDefinition x_result_sequence_id_before_early_return : "
+                "bool := true.", {})
     out.item('x_result_meta', result_meta)
 
     def task_defs():
